@@ -60,8 +60,13 @@ func (c06) Gen(rt *rapid.T, thorough bool) any {
 	}
 	for p := range s.Producers {
 		for i := range s.Producers[p] {
+			if s.Producers[p][i].Raw && s.Producers[p][i].Size < 0 {
+				s.Producers[p][i].Size = 3 // every item needs an identity here
+			}
 			if !s.Producers[p][i].Raw {
-				s.Producers[p][i].Lvl = "INFO"
+				// all enabled (the logger takes everything) but of different severities:
+				// no policy may treat items differently by level
+				s.Producers[p][i].Lvl = rapid.SampledFrom([]string{"TRACE", "INFO", "WARN", "ERROR", "FATAL"}).Draw(rt, "lvl6")
 			}
 		}
 	}
@@ -183,6 +188,7 @@ func (c06) runSeq(x *Exec, s *AsyncScn) {
 	for i := 0; i < s.Prefill && i <= s.BufferSize+1; i++ {
 		ops = append(ops, 0)
 	}
+	_ = ops
 	ops = append(ops, s.Seq...)
 	for k, op := range ops {
 		switch op {
@@ -192,7 +198,7 @@ func (c06) runSeq(x *Exec, s *AsyncScn) {
 			}
 			seq := n
 			n++
-			aop := AOp{Lvl: "INFO", Raw: op == 1, Size: 3}
+			aop := AOp{Lvl: []string{"INFO", "ERROR", "TRACE", "FATAL", "WARN"}[(seq*7+k)%5], Raw: op == 1, Size: 3}
 			x.Sim.Spawn(fmt.Sprintf("client-op%d", k), func() { all = append(all, sys.submit(0, seq, aop, nil)) })
 			x.Sim.Run(nil)
 			m.submit(fmt.Sprintf("t0s%d", seq))
